@@ -107,7 +107,7 @@ func (m *Machine) threadMain(t *Thread, body func()) {
 						m.signalEnd(pathEnd{Kind: "unsupported", Msg: fmt.Sprint("engine failure while reporting panic: ", r2)})
 					}
 				}()
-				m.violation("panic", "uncaught-panic", r.Msg)
+				m.violation("panic", panicLabel(r.Msg), r.Msg)
 			}()
 		case abortSentinel:
 		default:
@@ -644,4 +644,19 @@ func (m *Machine) selectResult(instr *ssa.Select, chosen int, recv Value, recvOk
 		}
 	}
 	return r
+}
+
+// panicLabel: "uncaught-panic: <first line of the message>" (digits kept, stack dropped)
+func panicLabel(msg string) string {
+	line := msg
+	for i := 0; i < len(line); i++ {
+		if line[i] == '\n' {
+			line = line[:i]
+			break
+		}
+	}
+	if len(line) > 90 {
+		line = line[:90]
+	}
+	return "uncaught-panic: " + line
 }
